@@ -94,11 +94,34 @@ def toWire : List GMarker → List EngineModel.V2.Marker
     ⟨a.off, Prim.u64OfInt (Prim.s32 a.index), Prim.u32OfInt (Prim.s32 b.index - Prim.s32 a.index), 0⟩ ::
       toWire (b :: rest)
 
+/-- `encode_beatgrid`: as `toWire`, with `diff = beatgrid[i + 1].index - beatgrid[i].index` computed in
+`int` as the C++ does (checked: `ub signed_overflow` when the difference leaves the `int` range — which
+`validate_beatgrid` excludes, `Proofs/CheckedArith.lean`). -/
+def toWireC : List GMarker → Res (List EngineModel.V2.Marker)
+  | [] => .ok []
+  | [a] => .ok [⟨a.off, Prim.u64OfInt (Prim.s32 a.index), 0, 0⟩]
+  | a :: b :: rest =>
+    match Chk.sub32 (Prim.s32 b.index) (Prim.s32 a.index) with
+    | .ok d =>
+      match toWireC (b :: rest) with
+      | .ok l => .ok (⟨a.off, Prim.u64OfInt (Prim.s32 a.index), Prim.u32OfInt d, 0⟩ :: l)
+      | .throw e => .throw e
+      | .ub u => .ub u
+    | .throw e => .throw e
+    | .ub u => .ub u
+
 def encodeBeat (v : Beat) : Res Bytes :=
   if !validGrid v.dflt || !validGrid v.adj then .throw .invalid_argument else
-  let w : EngineModel.V2.Beat :=
-    ⟨v.sampleRate.getD 0, v.sampleCount.getD 0, 1, toWire v.dflt, toWire v.adj⟩
-  V2.writeInto (33 + 24 * (v.dflt.length + v.adj.length)) (EngineModel.V2.beat.enc w)
+  match toWireC v.dflt with
+  | .throw e => .throw e
+  | .ub u => .ub u
+  | .ok wd =>
+    match toWireC v.adj with
+    | .throw e => .throw e
+    | .ub u => .ub u
+    | .ok wa =>
+      let w : EngineModel.V2.Beat := ⟨v.sampleRate.getD 0, v.sampleCount.getD 0, 1, wd, wa⟩
+      V2.writeInto (33 + 24 * (v.dflt.length + v.adj.length)) (EngineModel.V2.beat.enc w)
 
 /-- `static_cast<int>(int64_t)`: low 32 bits. -/
 def lowInt (x : UInt64) : UInt32 := UInt32.ofNat (x.toNat % 4294967296)
@@ -133,7 +156,9 @@ def decodeGrid : Cur (List GMarker) := do
   if Prim.s64 count < 2 then throwC .invalid_argument else
   if Prim.s64 count > 32768 then throwC .invalid_argument else
   let rem ← remaining
-  if (rem : Int) < 24 * Prim.s64 count then throwC .invalid_argument else
+  -- `end - ptr < 24 * count`: an `int64_t` product (checked)
+  let need ← lift (Chk.mul64 24 (Prim.s64 count))
+  if (rem : Int) < need then throwC .invalid_argument else
   let wire ← forN (rd EngineModel.V2.marker) count.toNat
   fun bs => match checkWire none wire with
     | .ok g => .ok (g, bs)
@@ -299,8 +324,12 @@ def decodeWave (minLen w : Nat) (entry : Cur Entry) (bs : Bytes) : Res Wave :=
     let spe ← rd u64be
     if n1 ≠ n2 then throwC .invalid_argument else
     let rem ← remaining
-    if Prim.s64 n1 < 0 ∨ (rem / w : Int) < Prim.s64 n1 ∨ (rem : Int) ≠ (w : Int) * (Prim.s64 n1 + 1)
-      then throwC .invalid_argument else
+    -- `n < 0 || n > (end - ptr) / w || end - ptr != w * (n + 1)`: short-circuit `||`; the `int64_t` sum and
+    -- product are computed only when the first two tests are false, and are checked.
+    if Prim.s64 n1 < 0 ∨ (rem / w : Int) < Prim.s64 n1 then throwC .invalid_argument else
+    let n1p ← lift (Chk.add64 (Prim.s64 n1) 1)
+    let need ← lift (Chk.mul64 (w : Int) n1p)
+    if (rem : Int) ≠ need then throwC .invalid_argument else
     let es ← forN entry n1.toNat
     let _ ← takeN w
     let rem ← remaining
